@@ -30,6 +30,15 @@ def _setup(c):
     nt = cfg["time"]
     planes = max(1, nt)
     ids = np.stack([1 + p * 40 + np.arange(c["hs"] * c["ws"]).reshape(c["hs"], c["ws"]) for p in range(planes)])      # <= 36 + 40 < 127
+    mask = cfg.get("mask", "none")
+    if mask != "none" and cfg["src_nodata"]:
+        nd = cfg["src_nodata"][0]
+        if mask == "top":
+            ids[:, : c["hs"] // 2, :] = nd
+        elif mask == "all":
+            ids[:] = nd
+        elif mask == "t1":
+            ids[0] = nd
     data = ids.astype(dt)
     if nt == 0:
         data = data[0]
@@ -65,10 +74,100 @@ def build_dask(c):
     return xx, dst, ids, rkw, yy
 
 
+def build_real(c):
+    import pyproj
+
+    from odc.geo.geobox import GeoBox
+    from odc.geo.geom import BoundingBox
+    from odc.geo.xr import wrap_xr
+
+    from .c12 import RSRC
+
+    s, d = c["pair"].split(">")
+    box, n = RSRC[s]
+    src = GeoBox.from_bbox(box, f"epsg:{s}", shape=(n, n), tight=True)
+    tr = pyproj.Transformer.from_crs(int(s), int(d), always_xy=True)
+    t = np.linspace(0, 1, 201)
+    bx = np.concatenate([box[0] + (box[2] - box[0]) * t, np.full(201, box[2]), box[2] - (box[2] - box[0]) * t, np.full(201, box[0])])
+    by = np.concatenate([np.full(201, box[1]), box[1] + (box[3] - box[1]) * t, np.full(201, box[3]), box[3] - (box[3] - box[1]) * t])
+    fx, fy = tr.transform(bx, by)
+    l, r, b, tp = float(np.min(fx)), float(np.max(fx)), float(np.min(fy)), float(np.max(fy))
+    w, h = r - l, tp - b
+    k = 1.0 if c["zoom"] == "same" else 1.6
+    x0, y0 = l + c["dx"] / 10 * w, b + c["dy"] / 10 * h
+    if d == "4326" and not (-180 <= x0 and x0 + 0.8 * w * k <= 180 and -89 <= y0 and y0 + 0.8 * h * k <= 89):
+        return None
+    dst = GeoBox.from_bbox(BoundingBox(x0, y0, x0 + 0.8 * w * k, y0 + 0.8 * h * k, f"epsg:{d}"), shape=(48, 48), tight=True)
+    data = (1 + np.arange(n * n, dtype="float32").reshape(n, n))
+    xx = wrap_xr(data, src)
+    return xx, dst
+
+
+def execute_real(job):
+    """chunked vs whole-array reprojection between really different CRSs: robust no-hole / no-extra facts"""
+    from ..sched import RealGraph, TaskFailed
+
+    def all3(m):      # 3x3 erosion (outside the image counts as False)
+        p = np.pad(m, 1, constant_values=False)
+        out = np.ones_like(m)
+        for dy in (0, 1, 2):
+            for dx in (0, 1, 2):
+                out &= p[dy:dy + m.shape[0], dx:dx + m.shape[1]]
+        return out
+
+    c, order = job
+    ev = {"c": c, "cfg": {}, "order": order or [], "outcome": "ok", "same_shape": True, "holes": 0, "extra": 0, "covered": 0}
+    try:
+        built = build_real(c)
+        if built is None:
+            ev["outcome"] = "skip_destination_outside_the_valid_area_of_its_crs"
+            return ev
+        xx, dst = built
+        ref = xx.odc.reproject(dst, resampling="nearest").values
+        yy = xx.chunk(dict(zip(xx.dims, c["sch"]))).odc.reproject(dst, chunks=tuple(c["dch"]), resampling="nearest")
+        if order is None:
+            out = yy.compute(scheduler="synchronous").values
+        elif order == "threads":
+            out = yy.compute(scheduler="threads", num_workers=4).values
+        else:
+            out = np.block(RealGraph(yy.data).execute(order))
+        ev["same_shape"] = bool(out.shape == ref.shape and out.dtype == ref.dtype)
+        if ev["same_shape"]:
+            rv, ov = ~np.isnan(ref), ~np.isnan(out)
+            solid = all3(rv)
+            empty = all3(~rv)
+            ev["holes"] = int((solid & ~ov).sum())
+            ev["extra"] = int((empty & ov).sum())
+            ev["covered"] = int(rv.sum())
+    except TaskFailed as ex:
+        ev["outcome"] = type(ex.orig).__name__
+    except MachineryError:
+        raise
+    except Exception as ex:  # noqa: BLE001
+        ev["outcome"] = type(ex).__name__
+    return ev
+
+
+def _shape_real(c):
+    from ..sched import RealGraph
+
+    try:
+        built = build_real(c)
+        if built is None:
+            return None
+        xx, dst = built
+        yy = xx.chunk(dict(zip(xx.dims, c["sch"]))).odc.reproject(dst, chunks=tuple(c["dch"]), resampling="nearest")
+        return RealGraph(yy.data).shape()
+    except Exception:  # noqa: BLE001
+        return None
+
+
 def execute(job):
     from ..sched import RealGraph, TaskFailed
 
     c, order = job
+    if c.get("op") == "real":
+        return execute_real(job)
     ev = {"c": c, "cfg": c["cfg"], "order": order or [], "outcome": "ok", "dask": [], "numpy": [], "src": []}
     try:
         xx, dst, ids, rkw, yy = build_dask(c)
@@ -106,6 +205,10 @@ def _shape_of(c):
         return None
 
 
+def _shape_any(c):
+    return _shape_real(c) if c.get("op") == "real" else _shape_of(c)
+
+
 def _validate(ctx, events):
     return ctx.validate("warp/ChunkTrace.tla", events, "ChunkTrace.cfg", batch=700)
 
@@ -117,9 +220,10 @@ def run(ctx):
     res, cases = ctx.model_check("warp/ChunkGen.tla", "MC_Chunk_quick.cfg" if q else "MC_Chunk_thorough.cfg", emit=True, timeout=3000)
     cases.sort(key=lambda c: json.dumps(c, sort_keys=True))
     total = len(cases)
-    cases = ctx.subsample(cases, 900 if q else 20000)
+    rcases = [c for c in cases if c.get("op") == "real"]
+    cases = ctx.subsample([c for c in cases if c.get("op") != "real"], 900 if q else 20000) + ctx.subsample(rcases, 120 if q else 10 ** 6)
     # execution orders of the REAL graphs, chosen by TLC (TaskGraph.tla)
-    shapes = ctx.pmap(_shape_of, cases)
+    shapes = ctx.pmap(_shape_any, cases)
     idx, graphs = {}, []
     for s in shapes:
         if s is not None and s not in idx:
@@ -145,14 +249,19 @@ def run(ctx):
         c = ev["c"]
         kind = "threads" if ev["order"] == "threads" else ("tlc-order" if ev["order"] else "default-order")
         case = {"c": c, "order": ev["order"]}
+        if c.get("op") == "real":
+            ctx.record(case, v, op=f"real-crs:{c['pair']}/{kind}", nontrivial=ev["covered"] > 0,
+                       sample={"case": c, "order": ev["order"][:12] if isinstance(ev["order"], list) else ev["order"], "covered": ev["covered"], "holes": ev["holes"], "extra": ev["extra"]})
+            continue
         ctx.record(case, v, op=f"{c['cfg']['dtype']}/{c['crs']}/{kind}", conformance=True,
                    nontrivial=any(any(any(v2 > 0 for v2 in row) for row in pl) for pl in ev["numpy"]) if ev["numpy"] else False,
                    sample={"case": c, "order": ev["order"][:12] if isinstance(ev["order"], list) else ev["order"], "dask": ev["dask"][:1]})
     ctx.traces_validated = len(events)
     ctx.extra["domain_cases_total"] = total
     ctx.rule = ("cases = same-CRS pairs (scales {1,-1,2,1/2,3/2}, shifts with residues {0,+-1/16,1/4}, 90deg rotation, overlapping to disjoint) and the same pairs across the "
-                "exact-translation CRS x 3 source/destination chunkings (incl. 1-pixel chunks) x 11 dtype/nodata/time-axis configurations (both nodata values set and different, non-dividing time chunks), each computed in memory, with dask's default order, "
-                "with TLC-chosen task orders of the exported graph, and on a thread pool; non-trivial = some destination pixel is covered; distinct by (case, order)")
+                "exact-translation CRS x 3 source/destination chunkings (incl. 1-pixel chunks) x 17 dtype/nodata/time-axis configurations (both nodata values set and different, non-dividing time chunks, parts of the source or a whole time step holding the source nodata value, float data with destination nodata 0), each computed in memory, with dask's default order, "
+                "with TLC-chosen task orders of the exported graph, and on a thread pool; plus 4 really different CRS pairs (curved footprints; placements, chunkings) where the chunked result must have no "
+                "hole and no extra data relative to the whole-array result (3x3-robust); non-trivial = some destination pixel is covered; distinct by (case, order)")
     ctx.assumptions = ["pairs with a destination pixel centre exactly on a source pixel boundary (ties) are not generated",
                        "cross-CRS through the exact tmerc family, so the first-principles nearest-neighbour model applies there as well"]
     ctx.oracle_clauses = ["in-memory xr_reproject (GDAL) is the reference the property names"]
